@@ -80,6 +80,20 @@ def _z(v):
     return v.var if is_sym(v) else z3.RealVal(repr(float(v)))
 
 
+def _reg_concrete(sp, xf, yf):
+    """anchor from a concrete numpy call (doubles).  Doubles do not satisfy exp(log x) == x exactly, so an anchor is only
+    added when it is strictly monotone-consistent with the anchors already present (otherwise the axioms would be
+    contradictory and every path vacuous)"""
+    t = sp.extra(_Terms)
+    if not hasattr(t, "anchors"):
+        t.anchors = []
+    for (x2, y2) in t.anchors:
+        if not ((xf < x2) == (yf < y2) and (xf == x2) == (yf == y2)):
+            return
+    t.anchors.append((xf, yf))
+    _reg(sp, _exact(xf), _exact(yf))
+
+
 def _reg(sp, x, y):
     """y = log x: instantiate strict monotonicity + injectivity against all earlier pairs"""
     t = sp.extra(_Terms)
@@ -89,10 +103,9 @@ def _reg(sp, x, y):
 
 
 def _exact(f):
-    """exact rational z3 value of a python float"""
-    from fractions import Fraction
-    fr = Fraction(float(f))
-    return z3.RealVal(fr.numerator) / z3.RealVal(fr.denominator)
+    """z3 value of a python float, converted the same way CrossHair converts float literals
+    (z3.RealVal(float) = the shortest decimal repr), so that shim terms and interpreter terms agree"""
+    return z3.RealVal(float(f))
 
 
 class NumpyShim:
@@ -216,7 +229,7 @@ class NumpyShim:
             with NoTracing():
                 sp = optional_context_statespace()
                 if sp is not None and _np.ndim(v) == 0 and v > 0:
-                    _reg(sp, _exact(v), _exact(r))
+                    _reg_concrete(sp, float(v), float(r))
             return r
         with NoTracing():
             sp = context_statespace()
@@ -235,7 +248,7 @@ class NumpyShim:
             with NoTracing():
                 sp = optional_context_statespace()
                 if sp is not None and _np.ndim(v) == 0:
-                    _reg(sp, _exact(r), _exact(v))
+                    _reg_concrete(sp, float(r), float(v))
             return r
         with NoTracing():
             sp = context_statespace()
@@ -440,3 +453,159 @@ class SymMat:
     def mean(self, axis=-1):
         assert axis in (-1, 1)
         return SymArr([sum(r.vals) / len(r.vals) for r in self.rows])
+
+
+# ----------------------------------------------------------------------------------
+# rng stub: a RandomState-compatible object whose draws are fresh symbolic values inside the
+# documented range ("every seed" becomes a solver variable)
+# ----------------------------------------------------------------------------------
+class SymRandomState:
+    def __init__(self, sym, tag="rng"):
+        self.sym = sym
+        self.tag = tag
+        self.n = 0
+
+    def _name(self, kind):
+        self.n += 1
+        return "%s_%s%d" % (self.tag, kind, self.n)
+
+    def uniform(self, low=0.0, high=1.0, size=None):
+        def one():
+            x = self.sym.real(self._name("u"), None, None)
+            if self.sym.symbolic:
+                self.sym.assume(low <= x)
+                self.sym.assume((x < high) if (high > low) else (x == low))
+            else:
+                x = min(max(x, low), high)
+            return x
+        if size is None:
+            return one()
+        n = size if isinstance(size, int) else size[0]
+        return SymArr([one() for _ in range(n)])
+
+    def randint(self, low, high=None, size=None, **k):
+        if high is None:
+            low, high = 0, low
+
+        def one():
+            x = self.sym.int(self._name("i"), -10 ** 6, 10 ** 6)
+            if self.sym.symbolic:
+                self.sym.assume(low <= x)
+                self.sym.assume(x < high)
+            else:
+                x = min(max(x, low), high - 1)
+            return x
+        if size is None:
+            return one()
+        n = size if isinstance(size, int) else size[0]
+        return SymArr([one() for _ in range(n)])
+
+    def rand(self, *a):
+        return self.uniform(0.0, 1.0, a[0] if a else None)
+
+    def choice(self, a, size=None, replace=True, p=None):
+        n = a if isinstance(a, int) else len(a)
+        i = self.sym.choice(self._name("c"), n)
+        return i if isinstance(a, int) else a[i]
+
+
+def _patch_shim_more():
+    def divide(self, a, b):
+        if any_sym(a, b):
+            return a / b
+        if isinstance(a, SymArr):
+            return SymArr([x / b for x in a])
+        return _np.divide(a, b)
+
+    def argmin(self, x, *a, **k):
+        if isinstance(x, (SymArr, list)) and any(is_sym(e) for e in x):
+            best = 0
+            for i in range(1, len(x)):
+                if x[i] < x[best]:
+                    best = i
+            return best
+        return _np.argmin(x, *a, **k)
+
+    def argmax(self, x, *a, **k):
+        if isinstance(x, (SymArr, list)) and any(is_sym(e) for e in x):
+            best = 0
+            for i in range(1, len(x)):
+                if x[i] > x[best]:
+                    best = i
+            return best
+        return _np.argmax(x, *a, **k)
+
+    def log1p(self, v):
+        if isinstance(v, SymArr):
+            return SymArr([log1p(self, e) for e in v])
+        if is_sym(v):
+            return self.log(1.0 + v)
+        return _np.log1p(v)
+
+    def expm1(self, v):
+        if isinstance(v, SymArr):
+            return SymArr([expm1(self, e) for e in v])
+        if is_sym(v):
+            return self.exp(v) - 1.0
+        return _np.expm1(v)
+
+    NumpyShim.divide = divide
+    NumpyShim.argmin = argmin
+    NumpyShim.argmax = argmax
+    NumpyShim.log1p = log1p
+    NumpyShim.expm1 = expm1
+    old_abs = NumpyShim.abs
+    old_round = NumpyShim.round
+    old_exp, old_log = NumpyShim.exp, NumpyShim.log
+
+    def abs_(self, x):
+        if isinstance(x, SymArr):
+            return SymArr([old_abs(self, e) for e in x])
+        return old_abs(self, x)
+
+    def round_(self, x, *a):
+        if isinstance(x, SymArr):
+            return SymArr([old_round(self, e) for e in x])
+        return old_round(self, x, *a)
+
+    def exp_(self, x):
+        if isinstance(x, SymArr):
+            return SymArr([old_exp(self, e) for e in x])
+        return old_exp(self, x)
+
+    def log_(self, x):
+        if isinstance(x, SymArr):
+            return SymArr([old_log(self, e) for e in x])
+        return old_log(self, x)
+
+    NumpyShim.abs = abs_
+    NumpyShim.round = round_
+    NumpyShim.exp = exp_
+    NumpyShim.log = log_
+
+
+_patch_shim_more()
+
+
+def _symarr_ops():
+    def astype(self, t):
+        return SymArr([t(x) if not is_sym(x) else (round(x) if t is int else x) for x in self.items])
+
+    def __mul__(self, k):
+        return SymArr([x * k for x in self.items])
+
+    def __rsub__(self, other):
+        o = list(other)
+        return SymArr([a - b for a, b in zip(o, self.items)])
+
+    def __neg__(self):
+        return SymArr([-x for x in self.items])
+
+    SymArr.astype = astype
+    SymArr.__mul__ = __mul__
+    SymArr.__rmul__ = __mul__
+    SymArr.__rsub__ = __rsub__
+    SymArr.__neg__ = __neg__
+
+
+_symarr_ops()
